@@ -146,7 +146,9 @@ def recovery(rep, r, n):
         which, route = [(w_, r_) for r_ in ('geometry', 'fit_image') for w_ in ('pa', 'eps', 'center')][(k + fix_offset) % 6]
         kw2 = dict(kw, **{f'fix_{which}': True}) if route == 'fit_image' else dict(kw)
         init2 = dict(x0=gal['x0'] + 0.4, y0=gal['y0'] - 0.3, sma=12.0, eps=min(0.85, max(0.05, gal['eps'] + 0.03)), pa=gal['pa'] + 0.05)
-        rep.count(f'fix-request:{which}:{route}')
+        if k % 2 == 0:
+            kw2['maxsma'] = None                            # grow until the ellipses leave the frame (the outward sequence then ends with stop code 1)
+        rep.count(f'fix-request:{which}:{route}:' + ('to-the-border' if kw2['maxsma'] is None else 'maxsma'))
         try:
             iso2, _ = fit(gal, img, kw2, init2, geo_fix={f'fix_{which}': True} if route == 'geometry' else None)
         except Exception as e:                              # noqa: BLE001
